@@ -724,6 +724,7 @@ func minimiseAndRecord(spec *meta.Spec, tier string, base uint64, f found) (stri
 		return path, rf, nil
 	}
 	// Verify: fresh process, same class, same digest.
+	inexact := false
 	for i := 0; i < 2; i++ {
 		rr := &result{}
 		if log, err := runWorker(spec, &job{Mode: "replay", Prop: spec.ID, Tier: tier, Tape: rf.Tape, Class: class, Retries: retriesFor(spec, class)}, 240*time.Second, rr); err != nil {
@@ -735,9 +736,24 @@ func minimiseAndRecord(spec *meta.Spec, tier string, base uint64, f found) (stri
 			rf.Shrink["exact_replay"] = false
 			continue
 		}
+		if rr.Viol != nil && rr.Viol.Prop == rf.Violation.Prop && (rr.Viol.Class() != class || rr.Digest != rf.Digest) {
+			// The fresh process violates the same property again, but not along
+			// the same trace: the code under test does not behave as a function
+			// of the tape (a map iterated, a random source of its own). That is
+			// a finding about the code, not a failure of the harness; the replay
+			// file says that it is not digest-exact.
+			rf.Shrink["exact_replay"] = false
+			rf.Shrink["replay_note"] = fmt.Sprintf("a fresh process violated %s again as %s (digest %x, recorded %x): the behaviour under test is not a function of the seed", rf.Violation.Prop, rr.Viol.Class(), rr.Digest, rf.Digest)
+			inexact = true
+			continue
+		}
 		if rr.Viol == nil || rr.Viol.Class() != class || rr.Digest != rf.Digest {
 			return "", nil, fmt.Errorf("replay of %s is not exact (class %v digest %x vs %x): harness failure, not reported as violation", path, rr.Viol, rr.Digest, rf.Digest)
 		}
+	}
+	if inexact {
+		b, _ := json.MarshalIndent(rf, "", " ")
+		os.WriteFile(path, b, 0o644)
 	}
 	return path, rf, nil
 }
